@@ -86,6 +86,12 @@ func verifyFunction(p *Program, fn *ssa.Function, c *Contract) (s *Session, err 
 			}
 		}
 	}()
+	s.trackAlloc = c.Allocates != nil && !c.AllocAssumed
+	if s.trackAlloc {
+		s.declare("bytes0", "Int")
+		s.entry["$bytes"] = "bytes0"
+		s.sorts["$bytes"] = "Int"
+	}
 	f := newFrame(s, fn, nil)
 	f.top = true
 	s.topFrame = f
@@ -206,7 +212,7 @@ func (f *Frame) assumeParam(prm *ssa.Parameter, v Val) {
 		case *types.Pointer, *types.Map, *types.Chan:
 			s.fact(app("<", sv.T, s.alloc0))
 			if _, isMap := prm.Type().Underlying().(*types.Map); isMap {
-				s.extRefs = append(s.extRefs, sv.T)
+				s.extMaps = append(s.extMaps, sv.T)
 			}
 			if f.fn.Signature.Recv() != nil && prm == f.fn.Params[0] {
 				s.fact(app(">", sv.T, "0"))
@@ -390,16 +396,18 @@ func (f *Frame) checkPost(rs []Val, pos string) {
 				continue
 			}
 			var ref string
+			ext := s.extRefs
 			switch sv.Ty.Underlying().(type) {
 			case *types.Slice:
 				ref = sliceField("s.ref", sv.T)
 			case *types.Map:
 				ref = sv.T
+				ext = s.extMaps
 			default:
 				continue
 			}
 			ds := []string{app(">=", ref, s.alloc0), eq(ref, "0")}
-			for _, er := range s.extRefs {
+			for _, er := range ext {
 				ds = append(ds, eq(ref, er))
 			}
 			add(&Obligation{Name: fmt.Sprintf("%s#prov.result(%s)", c.Key(), n), Kind: "prov", Guard: f.cur.reach, Goal: or(ds...), Pos: pos,
@@ -409,6 +417,12 @@ func (f *Frame) checkPost(rs []Val, pos string) {
 	for k, cl := range c.Ensures {
 		goal := f.evalClause(cl, f.cur.heap, s.entry, env)
 		add(&Obligation{Name: fmt.Sprintf("%s#post[%d]", c.Key(), k+1), Kind: "post", Guard: f.cur.reach, Goal: goal, Pos: pos, Clause: cl.Text})
+	}
+	if s.trackAlloc {
+		bound := f.evalExprView(*c.Allocates, s.plainView(f.cur.heap), s.plainView(s.entry), env).(S).T
+		grown := app("-", s.hget(f.cur.heap, "$bytes", "Int"), "bytes0")
+		add(&Obligation{Name: c.Key() + "#alloc", Kind: "alloc", Guard: f.cur.reach, Goal: app("<=", grown, bound), Pos: pos,
+			Clause: "ghost allocation counter grows by at most: " + c.Allocates.Text})
 	}
 	for k, cl := range c.PanicsIf {
 		goal := not(f.evalClause(cl, s.entry, s.entry, nil))
@@ -558,6 +572,24 @@ func (f *Frame) applyContract(sig *types.Signature, ct *Contract, env map[string
 			}
 		}
 		f.pendingDirty = dirty
+		if s.trackAlloc {
+			// the counter at the callee's panic point
+			cur := s.hget(f.cur.heap, "$bytes", "Int")
+			pb := s.freshConst("bytes", "Int")
+			s.fact(app(">=", pb, cur))
+			if ct.AllocPanic != nil {
+				bound := g.evalExprView(*ct.AllocPanic, preView, preView, nil).(S).T
+				s.fact(implies(and(f.cur.reach, pc), app("<=", app("-", pb, cur), bound)))
+				if ct.AllocAssumed {
+					s.assume("allocation bound of " + calleeName + " on panic is assumed, not verified: " + ct.AllocPanic.Text)
+				}
+			}
+			f.cur.heap["$bytes"] = pb
+			f.panicSite(pc, "call-panic", calleeName+": "+desc, pos)
+			f.cur.heap["$bytes"] = cur
+			f.pendingDirty = nil
+			pc = "false"
+		}
 		f.panicSite(pc, "call-panic", calleeName+": "+desc, pos)
 		f.pendingDirty = nil
 	}
@@ -612,6 +644,21 @@ func (f *Frame) applyContract(sig *types.Signature, ct *Contract, env map[string
 			}
 		}
 	}
+	if s.trackAlloc {
+		cur := s.hget(pre, "$bytes", "Int")
+		nb := s.freshConst("bytes", "Int")
+		s.fact(app(">=", nb, cur))
+		post["$bytes"] = nb
+		lp.havoc["$bytes"] = true
+		if ct.Allocates != nil {
+			// evaluated in the post state so that the bound may mention results and the new position
+			bound := g.evalExprViewFresh(*ct.Allocates, lp.view(), preView, renv, allocBefore)
+			s.fact(implies(f.cur.reach, app("<=", app("-", nb, cur), bound)))
+			if ct.AllocAssumed {
+				s.assume("allocation bound of " + calleeName + " is assumed, not verified: " + ct.Allocates.Text)
+			}
+		}
+	}
 	for _, cl := range append(append([]Clause{}, ct.Ensures...), ct.Defines...) {
 		g.hypMode = true
 		t := evalIn(cl, view, renv)
@@ -630,6 +677,13 @@ func (f *Frame) applyContract(sig *types.Signature, ct *Contract, env map[string
 	}
 	f.cur = &BState{f.cur.reach, post}
 	return packResults(results)
+}
+
+func (f *Frame) evalExprViewFresh(cl Clause, heap, old HeapView, extra map[string]Val, freshBase string) string {
+	saved := f.freshOverride
+	f.freshOverride = freshBase
+	defer func() { f.freshOverride = saved }()
+	return f.evalExprView(cl, heap, old, extra).(S).T
 }
 
 func (f *Frame) evalClauseFresh(cl Clause, heap, old HeapView, extra map[string]Val, freshBase string) string {
